@@ -659,6 +659,21 @@ impl Check for C09 {
             }
             emit(Case::with("lit", lit, &[r.range(0, 64) as i64, r.range(0, 8) as i64]));
         }
+        // literals longer than 64 KiB (block-wise UTF-8 validation, long copies): a multi-byte
+        // character at every offset around the 64 KiB / 128 KiB marks
+        {
+            let mut idx = 0u64;
+            for mark in [65536usize, 131072] {
+                for delta in -6i64..=6 {
+                    for width in [2usize, 3, 4] {
+                        idx += 1;
+                        if g.mine(idx) && (g.tier == Tier::Thorough || (delta + width as i64) % 3 == 0) {
+                            emit(Case::with("long", vec![], &[(mark as i64 + delta), width as i64, r.next() as i64 & 0xff]));
+                        }
+                    }
+                }
+            }
+        }
         // several literals in one document: the decoder's bookkeeping (UTF-8 cursor, scratch
         // buffer, escape carry) must not leak from one literal into the next
         let n = g.count(20_000, 1_500_000);
@@ -668,6 +683,27 @@ impl Check for C09 {
     }
     fn exec(&self, ctx: &mut Ctx, c: &Case) {
         match c.entry.as_str() {
+            "long" => {
+                // the character's first byte sits at offset `at` of the INPUT (the opening quote is
+                // offset `lead`)
+                let (at, width, lead) = (c.p(0) as usize, c.p(1) as usize, (c.p(2) as usize) % 40);
+                let ch: &str = match width {
+                    2 => "\u{e9}",
+                    3 => "\u{65e5}",
+                    _ => "\u{1f600}",
+                };
+                let mut lit = vec![b'"'];
+                let body_before = at.saturating_sub(lead + 1);
+                lit.extend(std::iter::repeat(b'a').take(body_before));
+                lit.extend_from_slice(ch.as_bytes());
+                lit.extend(std::iter::repeat(b'b').take(70_000usize.saturating_sub(body_before)));
+                lit.extend_from_slice(ch.as_bytes());
+                lit.push(b'"');
+                run_decoders(ctx, &lit, lead, 3, "long");
+                ctx.class("literal:longer-than-64KiB");
+                ctx.nontrivial();
+                ctx.sample("long");
+            }
             "multi" => {
                 run_multi(ctx, c.p(0) as u64);
                 ctx.nontrivial();
@@ -778,6 +814,6 @@ impl Check for C09 {
         }
     }
     fn required_classes(&self, _b: &str, _t: Tier) -> Vec<&'static str> {
-        vec!["codepoints:batch", "literal:unpaired-surrogate", "literal:well-formed", "literal:malformed", "literal:escaped", "grid:len>=32", "grid:esc-pair", "grid:bad-utf8", "multi:with-invalid-utf8", "multi:utf8"]
+        vec!["codepoints:batch", "literal:unpaired-surrogate", "literal:well-formed", "literal:malformed", "literal:escaped", "grid:len>=32", "grid:esc-pair", "grid:bad-utf8", "multi:with-invalid-utf8", "multi:utf8", "literal:longer-than-64KiB"]
     }
 }
